@@ -12,9 +12,15 @@ LOG=$OUT/confirm.log; : > $LOG
 git -C /repo worktree add -q --detach $WT HEAD || exit 2
 cd $WT
 export PYTHONPATH=$WT
+# (a demo that starts the engine may leave a non-daemon timer thread behind that keeps
+# the pytest process alive after its summary line: bounded by `timeout`, verdict from the summary)
 rundemo() {
   case "$DEMO" in
-    *test_demo.py) /venv/bin/python -m pytest -q -p no:cacheprovider -x --timeout=900 $DEMO ;;
+    *test_demo.py) timeout -k 5 400 /venv/bin/python -m pytest -q -p no:cacheprovider -x --timeout=300 $DEMO > /tmp/cs-demo-$ID.out 2>&1; rc=$?
+                   cat /tmp/cs-demo-$ID.out
+                   if grep -qE '^[0-9]+ failed|, [0-9]+ failed| error' /tmp/cs-demo-$ID.out; then return 1; fi
+                   if grep -qE '^[0-9]+ passed' /tmp/cs-demo-$ID.out; then return 0; fi
+                   return $rc ;;
     *) /venv/bin/python $DEMO ;;
   esac
 }
